@@ -46,10 +46,11 @@ Definition base_project_temp : string := "_data_table_temp_col".
 Definition base_project_const : string := "data_algebra_project_temp_col_".
 Definition base_merge_col : string := "data_algebra_temp_merge_col".
 Definition base_right_suffix : string := "_tmp_right_col".
+Definition base_null_key : string := "data_algebra_temp_null_key_col".
 Definition scratch_bases : list (string * list string) :=
   [("_extend_step", [base_standin; base_orig_index; base_extend_const]);
    ("_project_step", [base_project_temp; base_project_const]);
-   ("_natural_join_step", [base_right_suffix; base_merge_col])].
+   ("_natural_join_step", [base_right_suffix; base_merge_col; base_null_key])].
 
 (* frame calls per step in first-occurrence order (attribute calls, .loc / .iloc subscripts), then the number of column assignments
    `frame[name] = ...` and of `del frame[name]` statements; compared with what `ast` finds in pandas_base.py on every run *)
@@ -63,7 +64,7 @@ Definition pandas_calls : list (string * list string) :=
    ("_rename_columns_step", ["rename"; "[]=0"; "del=0"]);
    ("_map_columns_step", ["rename"; "[]=0"; "del=0"]);
    ("_order_rows_step", ["sort_values"; "drop_indices"; "clean_copy"; "iloc"; "[]=0"; "del=0"]);
-   ("_natural_join_step", ["DataFrame"; "merge"; "standardize_join_code_"; "drop_indices"; "isnull"; "loc"; "drop"; "[]=2"; "del=1"]);
+   ("_natural_join_step", ["DataFrame"; "to_numpy"; "any"; "isnull"; "where"; "arange"; "merge"; "standardize_join_code_"; "drop_indices"; "loc"; "drop"; "[]=4"; "del=2"]);
    ("_concat_rows_step", ["concat"; "drop_indices"; "[]=4"; "del=0"]);
    ("columns_to_frame_", ["DataFrame"; "drop_indices"; "clean_copy"; "[]=0"; "del=0"]);
    ("add_data_frame_columns_to_data_frame_", ["clean_copy"; "iloc"; "concat"; "[]=1"; "del=1"]);
@@ -410,6 +411,22 @@ Fixpoint suffix_from (fuel : nat) (sfx : string) (common names : list string) : 
 Definition max_len (names : list string) : nat := fold_left Nat.max (map String.length names) 0%nat.
 Definition right_suffix (common names : list string) : string := suffix_from (S (max_len names)) base_right_suffix common names.
 
+(* numpy.where(null_rows, numpy.arange(n) + 1, 0) and its negative twin: a marker that no two rows with a null key share *)
+Definition vint (z : Z) : val := VNum (inject_Z z).
+Definition marker_left (mask : list bool) : list val :=
+  map (fun ib : nat * bool => if snd ib then vint (Z.of_nat (S (fst ib))) else vint 0) (combine (seq 0 (List.length mask)) mask).
+Definition marker_right (mask : list bool) : list val :=
+  map (fun ib : nat * bool => if snd ib then vint (- Z.of_nat (S (fst ib))) else vint 0) (combine (seq 0 (List.length mask)) mask).
+
+(* one round of the coalescing loop: a suffixed right copy, where merge produced one, is folded into its column and dropped *)
+Definition jstep (sfx : string) (acc : option table) (c : string) : option table :=
+  r <- acc ;;
+  if mem (sapp c sfx) (cols r)
+  then is_null <- pd_isnull c r ;;
+       r <- pd_loc_set_from is_null c (sapp c sfx) r ;;      (* res.loc[is_null, c] = res.loc[is_null, c + right_suffix] *)
+       pd_del (sapp c sfx) r                                  (* res.drop(c + right_suffix, axis=1) *)
+  else Some r.
+
 Definition px_join (declared : list string) (on_a on_b : list string) (jt : jointype) (left right : table) : option table :=
   if Nat.eqb (nrows left) 0 && Nat.eqb (nrows right) 0
   then Some (pd_empty_frame declared)                                      (* pd.DataFrame({k: [] for k in op.columns_produced()}) *)
@@ -422,15 +439,20 @@ Definition px_join (declared : list string) (on_a on_b : list string) (jt : join
     let on_b' := match scratch with Some s => [s] | None => on_b end in
     let left := match scratch with Some s => pd_set_scalar s vone left | None => left end in
     let right := match scratch with Some s => pd_set_scalar s vone right | None => right end in
-    res <- pd_merge (how_of jt) left right on_a' on_b' sfx ;;
+    (* a null key matches nothing in SQL, pandas.merge pairs null keys: rows with a null key get a marker no other row has *)
+    null_left <- pd_isnull_any on_a' left ;;
+    null_right <- pd_isnull_any on_b' right ;;
+    let null_key := if existsb (fun b => b) null_left && existsb (fun b => b) null_right
+                    then Some (unused_column_name base_null_key names_in_use) else None in
+    left <- (match null_key with Some nk => pd_set_col nk (marker_left null_left) left | None => Some left end) ;;
+    right <- (match null_key with Some nk => pd_set_col nk (marker_right null_right) right | None => Some right end) ;;
+    let on_a'' := match null_key with Some nk => on_a' ++ [nk] | None => on_a' end in
+    let on_b'' := match null_key with Some nk => on_b' ++ [nk] | None => on_b' end in
+    res <- pd_merge (how_of jt) left right on_a'' on_b'' sfx ;;
     let res := clean_copy res in                                            (* drop_indices *)
     res <- (match scratch with Some s => pd_del s res | None => Some res end) ;;
-    res <- fold_left (fun acc c => r <- acc ;;
-                        if mem c on_a then Some r
-                        else is_null <- pd_isnull c r ;;
-                             r <- pd_loc_set_from is_null c (sapp c sfx) r ;;      (* res.loc[is_null, c] = res.loc[is_null, c + right_suffix] *)
-                             pd_del (sapp c sfx) r)                                (* res.drop(c + right_suffix, axis=1) *)
-                     common_cols (Some res) ;;
+    res <- (match null_key with Some nk => pd_del nk res | None => Some res end) ;;
+    res <- fold_left (jstep sfx) common_cols (Some res) ;;
     Some (clean_copy res).
 
 (* ------------------------------------------------------------------ _concat_rows_step *)
@@ -458,8 +480,7 @@ Definition px_concat (idc : option string) (an bn : string) (left right : table)
                      and terms whose first argument is a literal (transcribed and tied, outside the refinement proof)
      project       : group columns exist; an aggregate reads an existing column or a constant; the only zero-argument aggregate is _size()
      map_columns   : the renaming does not merge two columns
-     natural_join  : keys exist, as many left as right; a left key that is also a column of the right table is paired with itself
-                     (otherwise the listed finding C16-pandas-overlap-leftover-column applies)
+     natural_join  : keys exist, as many left as right
      concat_rows   : both sides declare the same column set *)
 Definition agg_ok_b (cs : list string) (e : expr) : bool :=
   match agg_shape e with
@@ -476,8 +497,7 @@ Definition win_ok_b (cs keys : list string) (ke : string * expr) : bool :=
   | None => false
   end.
 Definition join_keys_clean (ca cb on_a on_b : list string) : bool :=
-  subset on_a ca && subset on_b cb && Nat.eqb (List.length on_a) (List.length on_b)
-  && forallb (fun p => negb (mem (fst p) cb) || String.eqb (fst p) (snd p)) (combine on_a on_b).
+  subset on_a ca && subset on_b cb && Nat.eqb (List.length on_a) (List.length on_b).
 Fixpoint wf_op_b (p : op) : bool :=
   nodup_names (column_names p) && negb (Nat.eqb (List.length (column_names p)) 0) &&
   match p with
